@@ -248,3 +248,157 @@ theorem walkKids_layout (cs : List Tree) (hw : Tree.wfL cs) (hs : smallL cs) (ty
 end
 
 end Ctrmml.Riff
+
+namespace Ctrmml.Riff
+open Ctrmml
+
+/-- what a successful `get_chunk` guarantees about sizes and the advanced reader -/
+theorem getChunk_bounds (r : Riff) (cb : Bytes) (r' : Riff) (h : getChunk r = .ok (cb, r')) :
+    r'.data = r.data ∧ r'.type = r.type ∧ r'.position ≥ r.position + 8 ∧ r'.position ≤ r.data.length ∧
+    cb.length + r.position ≤ r.data.length := by
+  unfold getChunk at h
+  generalize hpos : (if r.position % 2 == 1 then r.position + 1 else r.position) = pos at h
+  have hge : pos ≥ r.position := by rw [← hpos]; split <;> omega
+  cases hl : isList r.type
+  · simp [hl] at h
+  · simp only [hl, Bool.not_true, Bool.false_eq_true, if_false] at h
+    cases h1 : rdLe32 r.data pos with
+    | none => simp [h1] at h
+    | some v =>
+      cases h2 : rdLe32 r.data (pos + 4) with
+      | none => simp [h1, h2] at h
+      | some size0 =>
+        have hlong : pos + 4 + 4 ≤ r.data.length := by
+          rcases Nat.lt_or_ge r.data.length (pos + 4 + 4) with hcon | hcon
+          · have := rdLe32_none_of_short r.data (pos + 4) (by omega)
+            rw [this] at h2; cases h2
+          · exact hcon
+        simp only [h1, h2] at h
+        generalize hsz : (if size0 > r.data.length - (pos + 8) then r.data.length - (pos + 8) else size0) = size at h
+        have hb : ¬ (pos + 8 + size > r.data.length) := by rw [← hsz]; split <;> omega
+        simp only [hb, if_false, Except.ok.injEq, Prod.mk.injEq] at h
+        obtain ⟨hcb, hr'⟩ := h
+        subst hr'
+        subst hcb
+        refine ⟨rfl, rfl, ?_, ?_, ?_⟩
+        · show pos + 8 + size ≥ r.position + 8; omega
+        · show pos + 8 + size ≤ r.data.length; omega
+        · simp only [List.length_append, List.length_take, List.length_drop, le32_length]
+          omega
+
+theorem ofBytes_bounds (b : Bytes) (r : Riff) (h : ofBytes b = .ok r) :
+    r.data.length + 8 ≤ b.length ∧ r.position ≤ 4 := by
+  unfold ofBytes at h
+  split at h
+  · cases h
+  · split at h
+    · rename_i t size _ _
+      simp only [Except.ok.injEq] at h
+      subst h
+      constructor
+      · simp only [List.length_take, List.length_drop]; split <;> omega
+      · simp only [rewindPos]; split <;> omega
+    · cases h
+
+theorem getId_ne_oob (r : Riff) : getId r ≠ .error .oob := by
+  unfold getId; split
+  · split <;> simp
+  · simp
+
+theorem rdBe32_some_len (d : Bytes) (pos v : Nat) (h : rdBe32 d pos = some v) : pos + 4 ≤ d.length := by
+  unfold rdBe32 at h
+  split at h
+  · rename_i b3 b2 b1 b0 t hd
+    have : (d.drop pos).length ≥ 4 := by rw [hd]; simp
+    simp at this; omega
+  · cases h
+
+theorem getId_ok_len (r : Riff) (id : Nat) (h : getId r = .ok id) : 4 ≤ r.data.length := by
+  unfold getId at h
+  split at h
+  · cases hv : rdBe32 r.data 0 with
+    | none => rw [hv] at h; cases h
+    | some v => have := rdBe32_some_len r.data 0 v hv; omega
+  · cases h
+
+theorem ofBytes_ne_oob (b : Bytes) : ofBytes b ≠ .error .oob := by
+  unfold ofBytes; split
+  · simp
+  · split <;> simp
+
+theorem getChunk_ne_oob (r : Riff) : getChunk r ≠ .error .oob := by
+  unfold getChunk
+  generalize (if r.position % 2 == 1 then r.position + 1 else r.position) = pos
+  cases hl : isList r.type
+  · simp
+  · simp only [Bool.not_true, Bool.false_eq_true, if_false]
+    cases h1 : rdLe32 r.data pos with
+    | none => simp
+    | some v =>
+      cases h2 : rdLe32 r.data (pos + 4) with
+      | none => simp
+      | some size0 =>
+        have hlong : pos + 4 + 4 ≤ r.data.length := by
+          rcases Nat.lt_or_ge r.data.length (pos + 4 + 4) with hcon | hcon
+          · have := rdLe32_none_of_short r.data (pos + 4) (by omega)
+            rw [this] at h2; cases h2
+          · exact hcon
+        simp only []
+        generalize hsz : (if size0 > r.data.length - (pos + 8) then r.data.length - (pos + 8) else size0) = size
+        have hb : ¬ (pos + 8 + size > r.data.length) := by rw [← hsz]; split <;> omega
+        simp [hb]
+
+/-- the walk's step budget is never exhausted: `walkTop`'s fuel `|bytes|+1` suffices for EVERY byte
+string, well-formed or not -/
+theorem walk_fuel_enough : ∀ fuel : Nat,
+    (∀ b : Bytes, b.length + 1 ≤ fuel → walk fuel b ≠ .error .oob) ∧
+    (∀ r : Riff, r.position ≤ r.data.length → r.data.length - r.position + 2 ≤ fuel → walkKids fuel r ≠ .error .oob) := by
+  intro fuel
+  induction fuel with
+  | zero => exact ⟨fun b h => by omega, fun r _ h => by omega⟩
+  | succ fuel ih =>
+    obtain ⟨ihW, ihK⟩ := ih
+    constructor
+    · intro b hb
+      rw [walk]
+      cases ho : ofBytes b with
+      | error e => intro h; injection h with h; subst h; exact ofBytes_ne_oob b ho
+      | ok r =>
+        obtain ⟨hlen, hpos⟩ := ofBytes_bounds b r ho
+        simp only []
+        split
+        · cases hg : getId r with
+          | error e => intro h; injection h with h; subst h; exact getId_ne_oob r hg
+          | ok id =>
+            simp only []
+            by_cases hp : r.position ≤ r.data.length
+            · have hk := ihK r hp (by omega)
+              cases hk' : walkKids fuel r with
+              | error e => intro h; injection h with h; subst h; exact hk hk'
+              | ok cs => simp
+            · -- the list id could not have been read from fewer than 4 bytes
+              exfalso
+              have := getId_ok_len r id hg
+              omega
+        · simp
+    · intro r hp hf
+      rw [walkKids]
+      split
+      · simp
+      · cases hg : getChunk r with
+        | error e => intro h; injection h with h; subst h; exact getChunk_ne_oob r hg
+        | ok p =>
+          obtain ⟨cb, r'⟩ := p
+          obtain ⟨hd, _, hp8, hple, hcb⟩ := getChunk_bounds r cb r' hg
+          simp only []
+          have hw := ihW cb (by omega)
+          cases hw' : walk fuel cb with
+          | error e => intro h; injection h with h; subst h; exact hw hw'
+          | ok c =>
+            simp only []
+            have hk := ihK r' (by rw [hd]; exact hple) (by rw [hd]; omega)
+            cases hk' : walkKids fuel r' with
+            | error e => intro h; injection h with h; subst h; exact hk hk'
+            | ok cs => simp
+
+end Ctrmml.Riff
